@@ -971,3 +971,7 @@ T('C12', 'twin-strategies-default-transients-none', UT, '    def __init__(self, 
 M('C19', 'configured-ignores-dropped-when-a-flag-is-given', ARGS, "            if ignore:\n                set_notebook_diff_ignores(ignore)", "            if ignore and not (args and any(a.startswith('-') for a in args)):\n                set_notebook_diff_ignores(ignore)", 'R19.13')
 T('C19', 'twin-configured-ignores-tested-for-none', ARGS, "            if ignore:\n                set_notebook_diff_ignores(ignore)", "            if ignore is not None and ignore:\n                set_notebook_diff_ignores(ignore)")
 M('C06', 'cell-ids-demoted-below-content', NBD, "        compare_cell_strict,\n        compare_cell_by_ids,\n        ],", "        compare_cell_by_ids,\n        compare_cell_strict,\n        ],", 'R06.2')
+T('C17', 'twin-is-gitref-as-guard-clauses', GF, "    return (\n        (candidate is None or not os.path.exists(candidate)) and\n        candidate != EXPLICIT_MISSING_FILE and\n        is_valid_gitref(candidate)\n        )",
+  "    if candidate is not None and os.path.exists(candidate):\n        return False\n    if candidate == EXPLICIT_MISSING_FILE:\n        return False\n    return is_valid_gitref(candidate)")
+M('C17', 'is-gitref-guard-clauses-forget-the-null-file', GF, "    return (\n        (candidate is None or not os.path.exists(candidate)) and\n        candidate != EXPLICIT_MISSING_FILE and\n        is_valid_gitref(candidate)\n        )",
+  "    if candidate is not None and os.path.exists(candidate):\n        return False\n    return is_valid_gitref(candidate)", 'R17.4')
